@@ -13,7 +13,7 @@
 //	add <c>   rm <c>                     blockstore Put + NotifyNewBlocks   /   DeleteBlock
 //	pop                                  one real nextEnvelope (none when nothing is pending); tasks stay active
 //	ack <k>                              k-th outstanding envelope: MessageSent + Sent()
-//	disc <p>                             PeerDisconnected
+//	disc <p>                             PeerDisconnected; envelopes in flight to p fail (Sent() without MessageSent)
 //	drain                                pop+ack until nothing is pending; prints the union of what each peer was sent
 package main
 
@@ -265,6 +265,7 @@ type st struct {
 	sentAnyNT   bool
 	overflowed  bool
 	truncRisk   map[int]bool // the queue bound may have dropped pushed tasks of this peer
+	lostRisk    map[[2]int]bool // block (re-)added while a DONT_HAVE sent in place of the block was still un-acked
 	fullCleared bool
 }
 
@@ -498,7 +499,7 @@ func (s *st) ack(k int) {
 
 func exec(c vh.Case, o *vh.Out) {
 	s := &st{o: o, pool: map[int]*cidInfo{}, idx: map[cid.Cid]int{}, denied: map[[2]int]bool{},
-		want: map[int]map[int]bool{0: {}, 1: {}, 2: {}}, truncRisk: map[int]bool{}, askedDH: map[[2]int]bool{}, sawAbsent: map[[2]int]bool{}, sawPresent: map[[2]int]bool{}}
+		want: map[int]map[int]bool{0: {}, 1: {}, 2: {}}, truncRisk: map[int]bool{}, lostRisk: map[[2]int]bool{}, askedDH: map[[2]int]bool{}, sawAbsent: map[[2]int]bool{}, sawPresent: map[[2]int]bool{}}
 	defer func() {
 		if s.e != nil {
 			s.e.Close()
@@ -665,6 +666,16 @@ func exec(c vh.Case, o *vh.Out) {
 				if pend, _ := s.e.VerifQueueTopics(pid(p)); len(pend) >= s.limit {
 					s.truncRisk[p] = true
 				}
+				for _, oe := range s.outst {
+					if pidx(oe.env.Peer) != p {
+						continue
+					}
+					for _, dc := range oe.env.Message.DontHaves() {
+						if s.idx[dc] == ci {
+							s.lostRisk[[2]int{p, ci}] = true
+						}
+					}
+				}
 			}
 			if err := s.bs.Put(context.Background(), s.pool[ci].blk); err != nil {
 				panic(err)
@@ -709,6 +720,16 @@ func exec(c vh.Case, o *vh.Out) {
 		case "disc":
 			p := vh.Atoi(f[1])
 			s.e.PeerDisconnected(pid(p))
+			// messages in flight to a disconnected peer fail: Sent() runs, MessageSent does not
+			var rest []outEnv
+			for _, oe := range s.outst {
+				if oe.env.Peer == pid(p) {
+					oe.env.Sent()
+				} else {
+					rest = append(rest, oe)
+				}
+			}
+			s.outst = rest
 			s.want[p] = map[int]bool{}
 			s.truncRisk[p] = false
 			o.Kind("disc")
@@ -767,7 +788,9 @@ func exec(c vh.Case, o *vh.Out) {
 						continue
 					}
 					sig := "accepted-want-unanswered"
-					if s.truncRisk[pidx(p)] {
+					if s.lostRisk[[2]int{pi, ci}] {
+						sig = "want-unserved-after-readd-behind-unacked-donthave"
+					} else if s.truncRisk[pidx(p)] {
 						sig = "accepted-want-unanswered-after-queue-truncation"
 					}
 					s.o.Fail(sig, "%s wants %d (%s), the block is in the store, the queue is empty and the want was not served", p, ci, tstr(m[c].WantType))
